@@ -275,7 +275,13 @@ func child(t *testing.T, c Check) {
 	defer jf.Close()
 
 	last := time.Now()
-	for i := shard; i < n; i += nsh {
+	for i := 0; i < n; i++ {
+		// cases are dealt to the workers by a hash of their index, so that
+		// case kinds that are selected by idx%k do not pile up on the same
+		// workers
+		if int((uint32(i)*2654435761)>>8)%nsh != shard {
+			continue
+		}
 		fmt.Fprintf(jf, "%d\n", i)
 		runCase(t, c, sh, i, tier)
 		if time.Since(last) > 5*time.Second {
